@@ -116,9 +116,12 @@ def inBound (m : Nat) (e : DEdge) : Bool := 2 ≤ esize e && esize e ≤ m
 /-- `tot`: `for edge in edges: if 2 <= size <= m: tot[size] += 1` (a table indexed `0..m`; the dict has keys `2..m`) -/
 def totLoop (es : List DEdge) (m : Nat) : List Nat := countLoopIf (inBound m) esize (m + 1) es
 
-/-- `edge_set`: the keys of the dict filled under the same test, in insertion order (`es` is duplicate-free) -/
+/-- `d[key] = 1` on the key list of a dict: a key that is present keeps its place, a new one goes to the end -/
+def dictAdd {α : Type} [BEq α] (keys : List α) (k : α) : List α := if keys.contains k then keys else keys ++ [k]
+
+/-- `edge_set`: the keys of the dict filled under the same test, in insertion order -/
 def edgeSetLoop (es : List DEdge) (m : Nat) : List DEdge :=
-  es.foldl (fun acc e => if inBound m e then acc ++ [e] else acc) []
+  es.foldl (fun acc e => if inBound m e then dictAdd acc e else acc) []
 
 /-- one hyperedge of the `node_reach` loop: `for node in edge[0]: node_reach[node] = (node_reach[node] ∪) set(edge[1])` -/
 def reachStep (tbl : List (Nat × List Nat)) (e : DEdge) : List (Nat × List Nat) :=
@@ -143,8 +146,10 @@ def strongTest (tbl : List (Nat × List Nat)) (e : DEdge) : Bool :=
   e.1.all (fun s => (coveredLoop tbl e.2).contains s)
 
 /-- the dict `bin_edges` (its keys): `for i in source: for j in target: bin_edges[(i, j)] = 1` under the size test -/
+def pairsOf (e : DEdge) : List (Nat × Nat) := e.1.flatMap (fun i => e.2.map (fun j => (i, j)))
+def binStep (acc : List (Nat × Nat)) (e : DEdge) : List (Nat × Nat) := (pairsOf e).foldl dictAdd acc
 def binLoop (es : List DEdge) (m : Nat) : List (Nat × Nat) :=
-  es.foldl (fun acc e => if inBound m e then acc ++ e.1.flatMap (fun i => e.2.map (fun j => (i, j))) else acc) []
+  es.foldl (fun acc e => if inBound m e then binStep acc e else acc) []
 
 /-- the double loop with `break`: some `(j, i) in bin_edges` -/
 def weakTest (bins : List (Nat × Nat)) (e : DEdge) : Bool :=
@@ -160,6 +165,34 @@ def recLoop (test : DEdge → Bool) (edgeSet : List DEdge) (m : Nat) : List Nat 
 /-- the last loop: `rec[size] / tot[size]` if `tot[size] != 0` else `0`, sizes `2..m` -/
 def ratioLoop (rec tot : List Nat) (m : Nat) : List (Nat × Rat) :=
   ((List.range (m + 1)).filter (2 ≤ ·)).map (fun k => (k, ratio (rec.getD k 0) (tot.getD k 0)))
+
+/-- the state of the FIRST loop of the three routines (`exact` fills `tot` and `edge_set`, `strong` also `node_reach`,
+`weak` also `bin_edges`), one pass over `get_edges()` -/
+structure FirstLoop where
+  tot : List Nat
+  edgeSet : List DEdge
+  reach : List (Nat × List Nat)
+  bins : List (Nat × Nat)
+
+def firstStep (m : Nat) (st : FirstLoop) (e : DEdge) : FirstLoop :=
+  if inBound m e then
+    { tot := bump st.tot (esize e), edgeSet := dictAdd st.edgeSet e, reach := reachStep st.reach e,
+      bins := binStep st.bins e }
+  else st
+
+def firstLoop (es : List DEdge) (m : Nat) : FirstLoop :=
+  es.foldl (firstStep m) { tot := List.replicate (m + 1) 0, edgeSet := [], reach := [], bins := [] }
+
+/-- the routines: first loop (one pass), second loop over `edge_set`, division loop -/
+def exactRun (es : List DEdge) (m : Nat) : List (Nat × Rat) :=
+  let st := firstLoop es m
+  ratioLoop (recLoop (exactTest st.edgeSet) st.edgeSet m) st.tot m
+def strongRun (es : List DEdge) (m : Nat) : List (Nat × Rat) :=
+  let st := firstLoop es m
+  ratioLoop (recLoop (strongTest st.reach) st.edgeSet m) st.tot m
+def weakRun (es : List DEdge) (m : Nat) : List (Nat × Rat) :=
+  let st := firstLoop es m
+  ratioLoop (recLoop (weakTest st.bins) st.edgeSet m) st.tot m
 
 def exactLoop (es : List DEdge) (m : Nat) : List (Nat × Rat) :=
   let edgeSet := edgeSetLoop es m
